@@ -152,9 +152,21 @@ func hostilize(t *rapid.T, p *model.Package, c *C08Case) {
 				if prim == "string" {
 					other = "\"none\""
 				}
-				d.Fields = append(d.Fields, model.Field{Name: "swTarget", Type: model.Optional(model.Prim(prim))})
-				d.Computed = append(d.Computed, model.Computed{Name: "viaSwitch", Switch: &model.SwitchExpr{Target: "swTarget",
-					Cases: []model.SwitchCase{{Pattern: prim + " " + n, Expr: n}, {Pattern: "null", Expr: other}}}})
+				// the switch target is an optional, a union or a plain value (each has its own code path in the emitters)
+				switch rapid.IntRange(0, 2).Draw(t, "swTargetKind") {
+				case 0:
+					d.Fields = append(d.Fields, model.Field{Name: "swTarget", Type: model.Optional(model.Prim(prim))})
+					d.Computed = append(d.Computed, model.Computed{Name: "viaSwitch", Switch: &model.SwitchExpr{Target: "swTarget",
+						Cases: []model.SwitchCase{{Pattern: prim + " " + n, Expr: n}, {Pattern: "null", Expr: other}}}})
+				case 1:
+					d.Fields = append(d.Fields, model.Field{Name: "swTarget", Type: &model.Type{Kind: model.KUnion, Cases: []*model.Type{model.Prim(prim), model.Prim("bool")}, Tags: []string{prim, "bool"}}})
+					d.Computed = append(d.Computed, model.Computed{Name: "viaSwitch", Switch: &model.SwitchExpr{Target: "swTarget",
+						Cases: []model.SwitchCase{{Pattern: prim + " " + n, Expr: n}, {Pattern: "bool", Expr: other}}}})
+				default:
+					d.Fields = append(d.Fields, model.Field{Name: "swTarget", Type: model.Prim(prim)})
+					d.Computed = append(d.Computed, model.Computed{Name: "viaSwitch", Switch: &model.SwitchExpr{Target: "swTarget",
+						Cases: []model.SwitchCase{{Pattern: prim + " " + n, Expr: n}}}})
+				}
 				c.Hostile = append(c.Hostile, "swvar:"+n)
 				switchAdded = true
 			}
@@ -257,6 +269,29 @@ func genC08(t *rapid.T) C08Case {
 	if rapid.IntRange(0, 7).Draw(t, "init") == 0 {
 		name := rapid.SampledFrom([]string{"sandbox", "my-project", "my_project", "MyProject", "9x", "x", "class", "int", "my project", "std", "a-b-c", "__init__", "Hello World", "é", "foo.bar", "main", "yardl", "test"}).Draw(t, "initName")
 		return C08Case{Kind: "init", InitName: name}
+	}
+	if rapid.IntRange(0, 3).Draw(t, "sweepSample") == 0 {
+		// a sample of the (position, word) table: one word of the member pool at every position at once, or one
+		// word of the type pool as type name / namespace; all targets are generated and compiled
+		man := "cpp:\n  sourcesOutputDir: ../out/cpp\n  overrideArrayHeader: verif_ndarray.h\n  generateHDF5: false\n  generateCMakeLists: false\npython:\n  outputDir: ../out/py\nmatlab:\n  outputDir: ../out/m\n"
+		if rapid.IntRange(0, 4).Draw(t, "sweepType") == 0 {
+			pos := rapid.SampledFrom([]string{"type", "namespace"}).Draw(t, "sweepTypePos")
+			if pool := okWords(pos, hostileTypeNames); len(pool) > 0 {
+				w := rapid.SampledFrom(pool).Draw(t, "sweepTypeWord")
+				return C08Case{Kind: "model", Pkg: sweepModel(pos, w), Compile: true, Manifest: man, Hostile: []string{pos + ":" + w}}
+			}
+		}
+		w := rapid.SampledFrom(hostileMemberNames).Draw(t, "sweepWord")
+		okAt := func(pos string) bool {
+			for _, x := range okWords(pos, []string{w}) {
+				if x == w {
+					return true
+				}
+			}
+			return false
+		}
+		p, used := sweepModelMulti(w, okAt)
+		return C08Case{Kind: "model", Pkg: p, Compile: true, Manifest: man, Hostile: used}
 	}
 	cfg := model.DefaultGen()
 	cfg.MaxDefs = 6
@@ -641,6 +676,84 @@ func sweepModel(pos, word string) *model.Package {
 		{Name: step, Type: model.Ref(ns, typeName)}, {Name: "s2", Type: model.Stream(model.Ref(ns, "En"))}, {Name: "s3", Type: model.Ref(ns, "Fl")}}}
 	pr.Fields = append(pr.Fields, model.Field{Name: "s4", Type: model.Ref(ns, "Holder")})
 	return &model.Package{Namespace: ns, DirName: "main", NumFiles: 1, Defs: []*model.Def{rec, en, fl, holder, pr}}
+}
+
+// sweepModelMulti places one member-like word at every position where the sweep table does not already
+// list it as breaking a target: field, step, enum/flags symbol, explicit union tag, dimension name, computed
+// field, and the variable of a !switch over an optional, over a union and over a plain value. One generated
+// tree then exercises up to ten (position, word) pairs.
+func sweepModelMulti(word string, ok func(pos string) bool) (*model.Package, []string) {
+	ns := "Mdl"
+	pick := func(pos, fallback string, used *[]string) string {
+		if ok(pos) {
+			*used = append(*used, pos+":"+word)
+			return word
+		}
+		return fallback
+	}
+	var used []string
+	two := uint64(2)
+	recA := &model.Def{Kind: model.DRecord, Name: "RecA", Fields: []model.Field{
+		{Name: pick("member", "fld", &used), Type: model.Prim("int32")},
+		{Name: "u", Type: &model.Type{Kind: model.KUnion, ExplicitTags: true, Cases: []*model.Type{model.Prim("int32"), model.Prim("string")}, Tags: []string{pick("tag", "tg", &used), "other1"}}},
+		{Name: "arr", Type: &model.Type{Kind: model.KArray, Elem: model.Prim("float32"), HasDims: true, Dims: []model.Dim{{Name: pick("dim", "dm", &used), Len: &two}, {Name: "d2", Len: &two}}}},
+	}}
+	recB := &model.Def{Kind: model.DRecord, Name: "RecB", Fields: []model.Field{{Name: "x", Type: model.Prim("int32")}}}
+	if ok("computed") {
+		used = append(used, "computed:"+word)
+		recB.Computed = append(recB.Computed, model.Computed{Name: word, Expr: "x"})
+	}
+	recC := &model.Def{Kind: model.DRecord, Name: "RecC", Fields: []model.Field{
+		{Name: "opt", Type: model.Optional(model.Prim("int32"))},
+		{Name: "uni", Type: &model.Type{Kind: model.KUnion, Cases: []*model.Type{model.Prim("int32"), model.Prim("bool")}, Tags: []string{"int32", "bool"}}},
+		{Name: "plain", Type: model.Prim("int32")},
+	}}
+	if ok("swvar") {
+		used = append(used, "swvar:"+word, "swvar-union:"+word, "swvar-plain:"+word)
+		recC.Computed = append(recC.Computed,
+			model.Computed{Name: "swOpt", Switch: &model.SwitchExpr{Target: "opt", Cases: []model.SwitchCase{{Pattern: "int32 " + word, Expr: word}, {Pattern: "null", Expr: "0"}}}},
+			model.Computed{Name: "swUni", Switch: &model.SwitchExpr{Target: "uni", Cases: []model.SwitchCase{{Pattern: "int32 " + word, Expr: word}, {Pattern: "bool", Expr: "0"}}}},
+			model.Computed{Name: "swPlain", Switch: &model.SwitchExpr{Target: "plain", Cases: []model.SwitchCase{{Pattern: "int32 " + word, Expr: word}}}})
+	}
+	sym := pick("symbol", "sym", &used)
+	en := &model.Def{Kind: model.DEnum, Name: "En", ListValues: true, Values: []model.EnumVal{{Symbol: sym}, {Symbol: "other2", Value: 1, UValue: 1}}}
+	fl := &model.Def{Kind: model.DFlags, Name: "Fl", ListValues: true, Values: []model.EnumVal{{Symbol: sym, Value: 1, UValue: 1}, {Symbol: "other3", Value: 2, UValue: 2}}}
+	pr := &model.Def{Kind: model.DProtocol, Name: "Proto", Fields: []model.Field{
+		{Name: pick("step", "stp", &used), Type: model.Ref(ns, "RecA")}, {Name: "s2", Type: model.Stream(model.Ref(ns, "En"))}, {Name: "s3", Type: model.Ref(ns, "Fl")},
+		{Name: "s4", Type: model.Ref(ns, "RecB")}, {Name: "s5", Type: model.Stream(model.Ref(ns, "RecC"))}}}
+	return &model.Package{Namespace: ns, DirName: "main", NumFiles: 1, Defs: []*model.Def{recA, recB, recC, en, fl, pr}}, used
+}
+
+// TestC08SweepMulti (VERIF_SWEEP=2): every word of the member pool through sweepModelMulti, to see
+// whether combining positions produces failures that the one-at-a-time table does not explain.
+func TestC08SweepMulti(t *testing.T) {
+	if os.Getenv("VERIF_SWEEP") != "2" {
+		t.Skip("set VERIF_SWEEP=2")
+	}
+	man := "cpp:\n  sourcesOutputDir: ../out/cpp\n  overrideArrayHeader: verif_ndarray.h\n  generateHDF5: false\n  generateCMakeLists: false\npython:\n  outputDir: ../out/py\nmatlab:\n  outputDir: ../out/m\n"
+	var mu sync.Mutex
+	sem := make(chan struct{}, 14)
+	var wg sync.WaitGroup
+	bad := 0
+	for _, w := range hostileMemberNames {
+		wg.Add(1)
+		go func(w string) {
+			defer wg.Done()
+			sem <- struct{}{}
+			defer func() { <-sem }()
+			okAt := func(pos string) bool { return len(okWords(pos, []string{w})) == 1 }
+			p, used := sweepModelMulti(w, okAt)
+			f := checkC08(C08Case{Kind: "model", Pkg: p, Compile: true, Manifest: man, Hostile: used})
+			if f != nil && !(f.KnownID != "" && core.Open(f.KnownID)) {
+				mu.Lock()
+				bad++
+				t.Logf("%s %v: %s", w, used, core.Trunc(f.Msg, 400))
+				mu.Unlock()
+			}
+		}(w)
+	}
+	wg.Wait()
+	t.Logf("%d of %d words fail in the multi-position model", bad, len(hostileMemberNames))
 }
 
 func TestC08Sweep(t *testing.T) {
